@@ -71,7 +71,7 @@ REAL_FIELDS = [("fa1", "real", 0), ("fa2", "real", 0), ("fa3", "real", 0),
                ("fb1", "real", 1), ("fb2", "real", 1), ("fb3", "real", 1)]
 INT_FIELDS = [("ia1", "int", 0), ("ia2", "int", 0), ("ia3", "int", 0),
               ("ib1", "int", 1), ("ib2", "int", 1), ("ib3", "int", 1)]
-REAL_SCALARS = ["ra", "rb", "rc"]
+REAL_SCALARS = ["ra", "df", "rc"]      # "df" clashes with the PSy loop index
 INT_SCALARS = ["ka", "kb"]
 RED_SCALARS = ["s1", "s2", "s3", "s4"]
 ALL_FIELDS = [f[0] for f in REAL_FIELDS + INT_FIELDS]
